@@ -314,6 +314,9 @@ class Interp:
         if isinstance(f, BoundMethod):
             return self.call(f.func, (f.obj,) + tuple(args), kwargs)
         if isinstance(f, _m.Model):
+            if self.ex.guards and not getattr(f, "pure", False):
+                # a contract's model may change ghost state, which knows nothing of the guards of a merged `if`: fork instead
+                raise NeedFork(f"call of the contract model {f.name} inside a merged if")
             return f.fn(self, *args, **kwargs)
         if isinstance(f, SRef):
             h = getattr(self, "ref_call", None)
@@ -328,6 +331,8 @@ class Interp:
         except TypeError:   # unhashable callable
             mdl = None
         if mdl is not None:
+            if self.ex.guards and _m.MODELS.get(f) is not mdl:
+                raise NeedFork(f"call of a contract's model of {getattr(f, '__name__', f)} inside a merged if")
             return mdl.fn(self, *args, **kwargs) if isinstance(mdl, _m.Model) else mdl(self, *args, **kwargs)
         if isinstance(f, types.MethodType):
             s = f.__self__
